@@ -62,6 +62,10 @@ IdxSet(sh, rich) ==
    : IdxValid(sh, x)}
 
 (* ---- call alphabet of one object ---- *)
+\* every call form of copy(): no argument, order= each of NumPy's layouts, and (rich) the positional spelling; whether
+\* the data already has the requested layout is decided by the shape / source layout the call meets
+CopyForms(rich) == {Op("copy", <<>>, <<>>, s, 0, 0) : s \in CopyOrders}
+                     \cup (IF rich THEN {Op("copy", <<>>, <<>>, s, 1, 0) : s \in CopyOrders \ {""}} ELSE {})
 OpsRich(o, rich) ==
   LET r == Len(o.sh) IN
   {Op("idx", t, <<>>, "", 0, 0) : t \in IdxSet(o.sh, rich)}
@@ -71,7 +75,8 @@ OpsRich(o, rich) ==
   \cup {Op("swapaxes", <<>>, <<>>, "", a, b) : a \in 1..r, b \in 1..r}
   \cup {Op("squeeze_ax", <<>>, <<>>, "", a, 0) : a \in 1..r}
   \cup {Op("expand_dims", <<>>, <<>>, "", a, 0) : a \in 1..(r + 1)}
-  \cup {Op0(x) : x \in StripOps \cup CopyStripOps \cup {"to_value", "copy", "ctor_a_from"} \cup BaseOps}
+  \cup {Op0(x) : x \in StripOps \cup CopyStripOps \cup CopyProtoOps \cup {"to_value", "ctor_a_from"} \cup BaseOps}
+  \cup CopyForms(TRUE)
   \cup {Op(x, <<>>, <<>>, u, 0, 0) : x \in ConvertOps \cup {"to_value_u"}, u \in Units}
   \cup {Op("red", <<>>, <<>>, f, a, b) : f \in RedSet, a \in 0..r, b \in {0, 1}}
   \cup {Op("cumsum", <<>>, <<>>, "", a, 0) : a \in 0..r}
@@ -83,7 +88,8 @@ OpsLite(o, rich) ==
   {Op("idx", t, <<>>, "", 0, 0) : t \in IdxSet(o.sh, rich)}
   \cup {Op("iter", <<>>, <<>>, "", 0, 0)}
   \cup {Op("reshape", <<>>, t, "", 0, 0) : t \in {x \in TargetShapes : Size(x) = Size(o.sh) /\ x # o.sh}}
-  \cup {Op0(x) : x \in {"T", "ravel", "flatten", "squeeze", "view", "repeat2", "d", "v", "copy", "ctor_a_from", "to_value", "in_base"}}
+  \cup {Op0(x) : x \in {"T", "ravel", "flatten", "squeeze", "view", "repeat2", "d", "v", "ctor_a_from", "to_value", "in_base"}}
+  \cup CopyForms(FALSE)
   \cup {Op("expand_dims", <<>>, <<>>, "", 1, 0)}
   \cup {Op("in_units", <<>>, <<>>, "m", 0, 0), Op("to", <<>>, <<>>, "km", 0, 0)}
   \cup {Op("red", <<>>, <<>>, "sum", a, 0) : a \in {0, r}}
